@@ -228,6 +228,29 @@ def run(ctx: Context, rep) -> None:
     # nothing read from the dataset's files / the environment is memoised
     from sa.rules import shared as _shm
     _shm.check_no_memo(ctx, rep, "C12.memo")
+    # the selected shards are exactly the paths computed by the selection:
+    # no file-name pattern matching on the way to the readers
+    rep.rule("C12.no-glob", "no call of list_files / glob / rglob / iglob / "
+             "match_filenames_once / fnmatch in the iteration modules: a "
+             "selected path is opened literally (a path containing * ? [ is "
+             "a path, not a pattern)")
+    n_glob = 0
+    for f_ in ctx.repo.all_functions():
+        if f_.module.name not in ("sedpack.io.dataset_iteration",
+                                  "sedpack.io.dataset_base",
+                                  "sedpack.io.tfrec.read"):
+            continue
+        for c_ in f_.calls():
+            nm_ = (dotted(c_.func) or "").rsplit(".", 1)[-1]
+            if nm_ in ("list_files", "glob", "rglob", "iglob",
+                       "match_filenames_once", "fnmatch", "filter") and (
+                           nm_ != "filter" or "fnmatch" in (dotted(c_.func)
+                                                            or "")):
+                n_glob += 1
+                rep.ob("C12.no-glob", False, loc=f_.loc(c_), where=f_.qualname,
+                       construct=short(c_, 70),
+                       message="selected shard paths are treated as patterns")
+    rep.info("C12.no-glob", f"{n_glob} pattern-matching call(s)")
     # the same selection yields the same shards in every interface: the
     # unshuffled concurrent batches cover the stream (same check as
     # C02.batch) and the walk that feeds the selection is the recorded order
